@@ -204,6 +204,11 @@ def fill_labels(facts, f, roles, api):
                 nm = rt[2]
                 if nm is not None and '::' in str(nm):
                     d['labels'].add('c:' + str(nm).rsplit('::', 1)[1].replace('{}', ''))
+                elif rt[1] is None and nm is not None and re.fullmatch(r'[A-Z]\w*', str(nm)) and _array_len_component(f, roles, str(nm)) is not None:
+                    # a const generic that is the length of an array among the resources (`[IoSlice; N]`): the same value
+                    # as `.len()` of that array
+                    ls = resolve_component(api, 'resources', _array_len_component(f, roles, str(nm)))
+                    d['labels'] |= ls or {'resources.%s' % _array_len_component(f, roles, str(nm))}
                 else:
                     d['labels'].add('c:%s' % rt[1])
             elif rt[0] == 'call':
@@ -219,6 +224,38 @@ def fill_labels(facts, f, roles, api):
         if w.via is None and not f.is_term(w.loc):
             d['labels'] |= match_labels(f, w.loc)
     return pos
+
+
+def _array_len_component(f, roles, name):
+    """index (as string) of the resources component whose type is an array of length `name` (a const generic)"""
+    for role, l in roles.items():
+        if role != 'resources' or not isinstance(l, int) or l >= len(f.locals):
+            continue
+        ty = f.locals[l]['ty']
+        m = re.match(r'^&(?:mut )?\((.*)\)$', ty)
+        inner = m.group(1) if m else None
+        if inner is None:
+            if re.search(r';\s*%s\]' % re.escape(name), ty):
+                return ''
+            continue
+        # split the tuple at top-level commas
+        parts, depth, cur = [], 0, ''
+        for ch in inner:
+            if ch in '([<':
+                depth += 1
+            elif ch in ')]>':
+                depth -= 1
+            if ch == ',' and depth == 0:
+                parts.append(cur)
+                cur = ''
+            else:
+                cur += ch
+        if cur.strip():
+            parts.append(cur)
+        for i, p_ in enumerate(parts):
+            if re.search(r';\s*%s\]' % re.escape(name), p_):
+                return str(i)
+    return None
 
 
 def match_labels(f, loc):
